@@ -28,6 +28,16 @@ CLAIMED = {
             "Trusted: map model interval computation; byte-string bounds are kept prefix-free w.r.t. stored keys "
             "(checked by the runner, skipped and counted otherwise).",
             "model-based property testing + metamorphic (buffer address swap)", "5 C02"),
+    "C07": ("lock", "exploration",
+            "Generated scripts of 2-3 threads on one optimistic_lock with three protected words run on real threads "
+            "under a deterministic cooperative scheduler whose scheduling points are the hooks before every atomic "
+            "access; every schedule with at most 2 preemptions (3 in the thorough tier) is enumerated per program, "
+            "plus PCT and random schedules; invariants over the stamped history decide exclusivity, snapshot "
+            "reads, upgrade and obsolete semantics. Failures shrink to (program, schedule) replay files.",
+            "Sequential consistency at hook granularity (reorderings allowed by the C++ memory model but not by SC "
+            "are invisible); exhaustive only up to the stated preemption bound per generated program.",
+            "schedule enumeration (bounded-preemption DFS, PCT, random walk) over generated lock scripts with "
+            "history-invariant oracle", "5 C07"),
     "C10": ("seq", "exploration",
             "After every mutating operation of generated histories the reported node counts are compared with the "
             "canonical path-compressed radix tree of the model key set, the growing/shrinking/prefix-split "
@@ -110,6 +120,10 @@ def main():
             {"name": "enc", "path": "src/enc", "serves_properties": ["C11", "C12", "C15"],
              "kind_free_text": "exhaustive chain enumerator (optimised build) + seeded generator of component tuples "
                                "with value shrinking (ASan+UBSan build); oracle restates the documented total order"},
+            {"name": "lock", "path": "src/conc_lock (scheduler: src/sched)", "serves_properties": ["C07"],
+             "kind_free_text": "deterministic cooperative scheduler over real threads (baton passing at the "
+                               "verification hooks), stateless DFS to a preemption bound + PCT + random walk, "
+                               "crash-safe worker processes, schedule/program shrinking, text replay files"},
         ],
         "checks": checks,
         "notes": "All checks: python3 check.py <id> --tier quick|thorough; VERIF_SEED is honoured (every run is a "
